@@ -27,7 +27,7 @@ class Ctx:
         self.tier = tier
         self.scratch = scratch
         self.cad = facts.load(factsdir, 'cadence')
-        self.mac = facts.load(factsdir, 'cadence_macros')
+        self.mac = facts.load(factsdir, 'cadence_macros', extra_renames=self.cad.j.get('module_renames', []))
         self.cad.siblings = [self.mac]
         self.mac.siblings = [self.cad]
         if len(self.cad.all_bodies) < 250:
